@@ -41,7 +41,9 @@ def emit(fn, sel, title, extra_imports=""):
     print(fn[0], n, "theorems")
 if pid == "C02":
     emit(("coq/Properties_C02.v", ""), lambda n, i: i[3] == 0 and n != "A_convert", "tensor algebra = index notation, core set (quick and thorough tiers)")
-    emit(("coq/Properties_C02_full.v", "_full"), lambda n, i: i[3] == 1 and n != "A_convert", "remaining (expensive) instances, thorough tier")
+    emit(("coq/Properties_C02_full.v", "_full"), lambda n, i: i[3] == 1 and n not in ("A_convert", "B_d2det"), "remaining (expensive) instances, thorough tier")
+    # (the committed file imports only the three modules that hold B_d2det_N)
+    emit(("coq/Properties_C02_d2det.v", "_full"), lambda n, i: n == "B_d2det", "computeDeterminantSecondDerivative(tensor) (thorough tier, used when the finding shared with C06 is absent)")
     emit(("coq/Properties_C02_convert.v", ""), lambda n, i: n == "A_convert", "st2tost2::convert (used when finding F22 is absent)")
 else:
     F23 = "DS_DF_from_DS_DEGL"
